@@ -192,6 +192,11 @@ func parseFlowDesc(flowDesc, ueIP string) (*ipFilterRule, error) {
 		return nil, errBadFilterDesc
 	}
 
+	if ipf.src.IPNet.IP.To4() == nil || ipf.dst.IPNet.IP.To4() == nil {
+		// the datapath matches on IPv4 addresses only: an IPv6 endpoint cannot be translated
+		return nil, errBadFilterDesc
+	}
+
 	parseLog = parseLog.With("ip-filter", ipf)
 	parseLog.Debugln("flow description parsed successfully")
 
